@@ -901,6 +901,10 @@ class TunnelCommunity(Community):
             if request.from_circuit_id not in self.exit_sockets:
                 self.logger.info("Created for unknown exit socket %s", request.from_circuit_id)
                 return
+            if request.from_circuit_id in self.relay_from_to:
+                # We already extended this circuit: the exit socket is merely waiting for its removal task to run.
+                self.logger.info("Created for circuit %s, which has already been extended", request.from_circuit_id)
+                return
             if self.exit_sockets[request.from_circuit_id].hop.peer is not request.peer:
                 # The circuit that asked us to extend is gone and its id has been given to somebody else since.
                 self.logger.warning("Created for circuit %s, which changed hands since the extend",
